@@ -71,113 +71,85 @@ Proof.
 Qed.
 
 (* ================================================================================================
-   SITE 1: refuted (F09a) — and proved under the guard *)
+   sorting by an injective key is canonical *)
+Section SortByFacts.
+  Context {A : Type} (key : A -> str).
+  Lemma insert_by_comm : forall x y l, key x <> key y ->
+    insert_by key x (insert_by key y l) = insert_by key y (insert_by key x l).
+  Proof.
+    intros x y l Hne. induction l as [|z r IH]; simpl.
+    - destruct (str_leb (key x) (key y)) eqn:E1, (str_leb (key y) (key x)) eqn:E2; try reflexivity.
+      + exfalso. apply Hne. apply str_leb_antisym; assumption.
+      + apply str_leb_false in E1. congruence.
+    - destruct (str_leb (key y) (key z)) eqn:Eyz, (str_leb (key x) (key z)) eqn:Exz; simpl.
+      + destruct (str_leb (key x) (key y)) eqn:Exy, (str_leb (key y) (key x)) eqn:Eyx;
+          rewrite ?Exz, ?Eyz; try reflexivity.
+        * exfalso. apply Hne. apply str_leb_antisym; assumption.
+        * apply str_leb_false in Exy. congruence.
+      + rewrite Eyz. destruct (str_leb (key x) (key y)) eqn:Exy.
+        * rewrite (str_leb_trans _ _ _ Exy Eyz) in Exz. discriminate.
+        * rewrite Exz. reflexivity.
+      + rewrite Exz. destruct (str_leb (key y) (key x)) eqn:Eyx.
+        * rewrite (str_leb_trans _ _ _ Eyx Exz) in Eyz. discriminate.
+        * rewrite Eyz. reflexivity.
+      + rewrite Exz, Eyz. f_equal. exact IH.
+  Qed.
+
+  (* sorting by an injective key is canonical *)
+  Theorem sort_by_perm : forall l l', Permutation l l' -> NoDup (map key l) -> sort_by key l = sort_by key l'.
+  Proof.
+    induction 1 as [|x l l' Hp IH|x y l|l l' l'' Hp1 IH1 Hp2 IH2]; intro Hnd; simpl.
+    - reflexivity.
+    - inversion Hnd; subst. rewrite IH by assumption. reflexivity.
+    - simpl in Hnd. inversion Hnd as [|? ? Hx Hr]; subst.
+      apply insert_by_comm. intro E. apply Hx. left. symmetry. exact E.
+    - rewrite IH1 by exact Hnd. apply IH2. eapply Permutation_NoDup; [|exact Hnd]. apply Permutation_map. exact Hp1.
+  Qed.
+End SortByFacts.
+
+(* ================================================================================================
+   SITE 1: since the fix of F09a the loop iterates sorted(url_vars, key=position in the template) *)
 Definition v_alpha : str := [97;108;112;104;97].
 Definition v_beta : str := [98;101;116;97].
 Definition idS (s : str) : str := s.
 
-Lemma site1_refuted :
-  Permutation [v_alpha; v_beta] [v_beta; v_alpha] /\ NoDup [v_alpha; v_beta] /\
-  guard_F09a idS [] [v_alpha; v_beta] = false /\
-  signature_order idS [] [v_alpha; v_beta] <> signature_order idS [] [v_beta; v_alpha].
+Lemma index_of_inj : forall t a b, In a t -> In b t -> index_of a t = index_of b t -> a = b.
 Proof.
-  repeat split.
-  - apply perm_swap.
-  - repeat constructor; simpl; intuition discriminate.
-  - vm_compute. discriminate.
+  induction t as [|x t IH]; intros a b Ha Hb E; [contradiction|]. cbn [index_of] in E.
+  destruct (str_eqb a x) eqn:Ea, (str_eqb b x) eqn:Eb; cbv iota in E.
+  - apply str_eqb_eq in Ea. apply str_eqb_eq in Eb. congruence.
+  - lia.
+  - lia.
+  - apply str_eqb_neq in Ea. apply str_eqb_neq in Eb.
+    destruct Ha as [Ha|Ha]; [congruence|]. destruct Hb as [Hb|Hb]; [congruence|].
+    apply IH; [assumption | assumption | lia].
 Qed.
 
-Section Site1.
-  Variable san : str -> str.
+Lemma template_keys_nodup : forall t l, NoDup l -> (forall v, In v l -> In v t) -> NoDup (map (template_key t) l).
+Proof.
+  intros t. induction l as [|x l IH]; intros Hnd Hsub; simpl; [constructor|].
+  inversion Hnd as [|? ? Hx Hr]; subst. constructor.
+  - intro X. apply in_map_iff in X. destruct X as [y [E Hy]]. unfold template_key in E. inversion E as [E'].
+    assert (y = x) by (apply (index_of_inj t); [apply Hsub; right; exact Hy | apply Hsub; left; reflexivity | exact E']).
+    subst. contradiction.
+  - apply IH; [exact Hr|]. intros v Hv. apply Hsub. right. exact Hv.
+Qed.
 
-  Lemma ensure_step_declared : forall acc v,
-    mem_str (san v) (map fst acc) = true -> ensure_step san acc v = acc.
-  Proof. intros acc v H. unfold ensure_step. rewrite H. reflexivity. Qed.
+(* whatever order the set is iterated in, the signature is the same *)
+Theorem site1_full : forall san ps template l1 l2,
+  NoDup l1 -> (forall v, In v l1 -> In v template) -> Permutation l1 l2 ->
+  signature_order san ps template l1 = signature_order san ps template l2.
+Proof.
+  intros san ps template l1 l2 Hnd Hsub Hp. unfold signature_order.
+  rewrite (sort_by_perm (template_key template) l1 l2 Hp (template_keys_nodup _ _ Hnd Hsub)). reflexivity.
+Qed.
 
-  (* with every variable but at most one already declared, the loop appends at most that one *)
-  Lemma ensure_all_declared : forall vs acc,
-    (forall v, In v vs -> mem_str (san v) (map fst acc) = true) -> ensure_path_vars san acc vs = acc.
-  Proof.
-    unfold ensure_path_vars. induction vs as [|v vs IH]; intros acc H; simpl; [reflexivity|].
-    rewrite ensure_step_declared by (apply H; left; reflexivity). apply IH. intros w Hw. apply H. right. exact Hw.
-  Qed.
-
-  Lemma undeclared_nil : forall ps vs, undeclared san ps vs = [] ->
-    forall v, In v vs -> mem_str (san v) (map fst ps) = true.
-  Proof.
-    intros ps vs H v Hv. unfold undeclared in H.
-    destruct (mem_str (san v) (map fst ps)) eqn:E; [reflexivity|].
-    assert (X : In v (filter (fun v => negb (mem_str (san v) (map fst ps))) vs)) by (apply filter_In; rewrite E; auto).
-    rewrite H in X. contradiction.
-  Qed.
-
-  Lemma mem_str_app : forall s a b, mem_str s (a ++ b) = mem_str s a || mem_str s b.
-  Proof. induction a as [|x a IH]; intro b; simpl; [reflexivity|]. rewrite IH, orb_assoc. reflexivity. Qed.
-
-  (* the result when exactly one variable [u] is undeclared, wherever it sits in the iteration order *)
-  Lemma ensure_one : forall vs ps u,
-    In u vs -> mem_str (san u) (map fst ps) = false ->
-    (forall v, In v vs -> v <> u -> mem_str (san v) (map fst ps) = true) ->
-    ensure_path_vars san ps vs = ps ++ [(san u, true)].
-  Proof.
-    unfold ensure_path_vars. induction vs as [|v vs IH]; intros ps u Hin Hu Hothers; [contradiction|]. simpl.
-    destruct (str_eq_dec v u) as [->|Hne].
-    - unfold ensure_step at 2. rewrite Hu.
-      apply (ensure_all_declared vs (ps ++ [(san u, true)])).
-      intros w Hw. rewrite map_app, mem_str_app. simpl.
-      destruct (str_eq_dec w u) as [->|Hwu]; [rewrite str_eqb_refl; simpl; apply orb_true_r|].
-      rewrite (Hothers w (or_intror Hw) Hwu). reflexivity.
-    - rewrite ensure_step_declared by (apply Hothers; [left; reflexivity | exact Hne]).
-      destruct Hin as [Hin|Hin]; [congruence|]. apply IH; [exact Hin | exact Hu |].
-      intros w Hw. apply Hothers. right. exact Hw.
-  Qed.
-
-  Lemma undeclared_perm : forall ps l1 l2, Permutation l1 l2 -> Permutation (undeclared san ps l1) (undeclared san ps l2).
-  Proof.
-    intros ps l1 l2 H. unfold undeclared. induction H; simpl.
-    - constructor.
-    - destruct (negb (mem_str (san x) (map fst ps))); [constructor|]; assumption.
-    - destruct (negb (mem_str (san x) (map fst ps))), (negb (mem_str (san y) (map fst ps))); try apply Permutation_refl.
-      apply perm_swap.
-    - eapply Permutation_trans; eassumption.
-  Qed.
-
-  Lemma ensure_guarded : forall ps vs, NoDup vs -> guard_F09a san ps vs = true ->
-    ensure_path_vars san ps vs = ps ++ map (fun u => (san u, true)) (undeclared san ps vs).
-  Proof.
-    intros ps vs Hnd G. unfold guard_F09a in G.
-    destruct (undeclared san ps vs) as [|u [|u' r]] eqn:E; simpl in G; try discriminate.
-    - simpl. rewrite app_nil_r. apply ensure_all_declared. apply undeclared_nil. exact E.
-    - simpl. assert (Hu : In u (undeclared san ps vs)) by (rewrite E; left; reflexivity).
-      unfold undeclared in Hu. apply filter_In in Hu. destruct Hu as [Hin Hneg]. apply negb_true_iff in Hneg.
-      apply ensure_one; [exact Hin | exact Hneg |].
-      intros v Hv Hne. destruct (mem_str (san v) (map fst ps)) eqn:Ev; [reflexivity|]. exfalso.
-      assert (X : In v (undeclared san ps vs)) by (unfold undeclared; apply filter_In; rewrite Ev; auto).
-      rewrite E in X. destruct X as [X|[]]. congruence.
-  Qed.
-
-  (* the site IS permutation invariant when at most one path variable is undeclared *)
-  Theorem site1_partial : forall ps l1 l2,
-    NoDup l1 -> Permutation l1 l2 -> guard_F09a san ps l1 = true ->
-    signature_order san ps l1 = signature_order san ps l2.
-  Proof.
-    intros ps l1 l2 Hnd Hp G.
-    assert (Hnd2 : NoDup l2) by (eapply Permutation_NoDup; eassumption).
-    pose proof (undeclared_perm ps _ _ Hp) as Hu.
-    assert (G2 : guard_F09a san ps l2 = true).
-    { unfold guard_F09a in *. rewrite <- (Permutation_length Hu). exact G. }
-    unfold signature_order. rewrite (ensure_guarded _ _ Hnd G), (ensure_guarded _ _ Hnd2 G2).
-    unfold guard_F09a in G.
-    destruct (undeclared san ps l1) as [|u [|u' r]] eqn:E1; simpl in G; try discriminate.
-    - apply Permutation_nil in Hu. rewrite Hu. reflexivity.
-    - apply Permutation_length_1_inv in Hu. rewrite Hu. reflexivity.
-  Qed.
-End Site1.
-
-Lemma site1_guard_nonvacuous :
-  guard_F09a idS [(v_beta, false)] [v_alpha; v_beta] = true /\
-  signature_order idS [(v_beta, false)] [v_alpha; v_beta] = [v_alpha; v_beta].
-Proof. split; vm_compute; reflexivity. Qed.
+(* …and it is the template order *)
+Lemma site1_regression_F09a :
+  signature_order idS [] [v_alpha; v_beta] [v_alpha; v_beta] = [v_alpha; v_beta] /\
+  signature_order idS [] [v_alpha; v_beta] [v_beta; v_alpha] = [v_alpha; v_beta] /\
+  signature_order idS [(v_beta, false)] [v_alpha; v_beta] [v_beta; v_alpha] = [v_alpha; v_beta].
+Proof. repeat split; vm_compute; reflexivity. Qed.
 
 (* ================================================================================================
    SITE 2: proved *)
@@ -456,24 +428,14 @@ Proof. repeat split; vm_compute; discriminate. Qed.
 (* ================================================================================================
    dispatch over the translator's list of order-relevant sites *)
 Definition site_obligation (m : str) : Prop :=
-  if str_eqb m m_ensure_path_vars then
-    forall san ps l1 l2, NoDup l1 -> Permutation l1 l2 -> signature_order san ps l1 = signature_order san ps l2
-  else if str_eqb m m_typing_imports_render then
+  if str_eqb m m_typing_imports_render then
     forall is_stdlib classify c0 l1 l2, wf_collector c0 = true -> Permutation l1 l2 ->
       typing_imports_render is_stdlib classify c0 l1 = typing_imports_render is_stdlib classify c0 l2
   else False.   (* a site without a transcription: undischargeable *)
 
-Theorem sites_partial : forall m, In m order_relevant_models -> m <> m_ensure_path_vars -> site_obligation m.
+Theorem sites_full : forall m, In m order_relevant_models -> site_obligation m.
 Proof.
-  intros m Hin Hne. unfold order_relevant_models in Hin. simpl in Hin.
-  destruct Hin as [<-|[<-|[]]].
-  - unfold site_obligation. vm_compute str_eqb. exact site2_invariant.
-  - exfalso. apply Hne. reflexivity.
-Qed.
-
-Theorem sites_refuted_F09a : In m_ensure_path_vars order_relevant_models /\ ~ site_obligation m_ensure_path_vars.
-Proof.
-  split; [unfold order_relevant_models; simpl; auto|].
-  unfold site_obligation. rewrite str_eqb_refl. intro H.
-  destruct site1_refuted as [Hp [Hnd [_ Hne]]]. apply Hne. apply H; assumption.
+  intros m Hin. unfold order_relevant_models in Hin. simpl in Hin.
+  destruct Hin as [<-|[]].
+  unfold site_obligation. vm_compute str_eqb. exact site2_invariant.
 Qed.
